@@ -242,16 +242,19 @@ Section R8.
   Hypothesis mkqs_ok : forall fuel mem, SorterOK wl (fun d => mkqs sz wl fuel d mem).
   (** the in-place permutation groups the array by character (see PermuteProofs / report: proved for the
       out-of-place distribution, assumed here for the cycle-leader loop) *)
-  Hypothesis ip_buckets_ok : forall dep l bl, all_nulfree l -> buckets8 true dep l = Some bl -> BucketsOK dep l bl.
+  Variable ip : bool.       (* in place (RadixStep_CI2) or out of place; constant along the recursion *)
+  Hypothesis ip_buckets_ok : ip = true -> forall dep l bl, all_nulfree l -> buckets8 true dep l = Some bl -> BucketsOK dep l bl.
 
-  Lemma buckets8_ok ip dep l bl : all_nulfree l -> buckets8 ip dep l = Some bl -> BucketsOK dep l bl.
+  Lemma buckets8_ok dep l bl : all_nulfree l -> buckets8 ip dep l = Some bl -> BucketsOK dep l bl.
   Proof.
-    destruct ip; [apply ip_buckets_ok|]. intros _ H. unfold buckets8 in H. injection H as <-. apply ce_buckets_ok.
+    intros HN H. destruct (Bool.bool_dec ip true) as [E|E].
+    - rewrite E in H. now apply (ip_buckets_ok E).
+    - apply Bool.not_true_is_false in E. rewrite E in H. unfold buckets8 in H. injection H as <-. apply ce_buckets_ok.
   Qed.
 
-  Lemma r8_step_S f ip szstep mem s dep l lcp :
-    r8_step sz wl (S f) ip szstep mem s dep l lcp =
-    match buckets8 ip dep l with
+  Lemma r8_step_S f ip' szstep mem s dep l lcp :
+    r8_step sz wl (S f) ip' szstep mem s dep l lcp =
+    match buckets8 ip' dep l with
     | None => None
     | Some bl =>
         let lcp1 := if wl then lcp_step8 dep (map (@length _) bl) lcp else lcp in
@@ -259,21 +262,21 @@ Section R8.
           (fun k b lc =>
              let m := nN b in
              if N.eqb k 0 then Some (b, lc)
-             else if (if ip then N.leb m 1 else N.eqb m 0) then Some (b, lc)
+             else if (if ip' then N.leb m 1 else N.eqb m 0) then Some (b, lc)
              else if N.ltb m inssort_threshold then Some (insertion wl (S dep) b lc)
              else if mem_short mem (w64 (szstep * N.of_nat (S s)))
                   then mkqs sz wl f (S dep) (w64sub mem (w64 (szstep * N.of_nat s))) b lc
-             else r8_step sz wl f ip szstep mem (S s) (S dep) b lc)
+             else r8_step sz wl f ip' szstep mem (S s) (S dep) b lc)
           keys256 bl lcp1
     end.
   Proof. reflexivity. Qed.
 
-  Theorem r8_step_ok : forall fuel ip szstep mem s,
+  Theorem r8_step_ok : forall fuel szstep mem s,
     SorterOK wl (fun d => r8_step sz wl fuel ip szstep mem s d).
   Proof.
-    induction fuel as [|f IH]; intros ip szstep mem s p l lcp out lcp' HP HN HL H; [discriminate|].
+    induction fuel as [|f IH]; intros szstep mem s p l lcp out lcp' HP HN HL H; [discriminate|].
     rewrite r8_step_S in H. destruct (buckets8 ip (length p) l) as [bl|] eqn:EB; [|discriminate].
-    pose proof (buckets8_ok _ _ _ _ HN EB) as HB.
+    pose proof (buckets8_ok _ _ _ HN EB) as HB.
     pose proof (BucketsOK_perm _ _ _ HN HB) as Pl.
     assert (HLc : length lcp = length (concat bl)) by (rewrite HL; now apply Permutation_length).
     pose proof (BucketsOK_in p l HP HN keys256 bl HB) as Hin.
@@ -319,7 +322,7 @@ Section R8.
             -- rewrite <- Hlen in Hf. apply (ins_ok (p ++ [k]) b lc o lc' HPre HNb HLb). exact Hf.
             -- revert Hf. destruct (mem_short mem (w64 (szstep * N.of_nat (S s)))); intros Hf.
                ++ rewrite <- Hlen in Hf. apply (mkqs_ok f (w64sub mem (w64 (szstep * N.of_nat s))) (p ++ [k]) b lc o lc' HPre HNb HLb). exact Hf.
-               ++ rewrite <- Hlen in Hf. apply (IH ip szstep mem (S s) (p ++ [k]) b lc o lc' HPre HNb HLb). exact Hf.
+               ++ rewrite <- Hlen in Hf. apply (IH szstep mem (S s) (p ++ [k]) b lc o lc' HPre HNb HLb). exact Hf.
       - (* chunksP: bucket 0 is the first bucket *)
         destruct bl as [|b0 r]; [unfold keys256; simpl; exact I|].
         rewrite keys256_cons.
